@@ -106,9 +106,29 @@ def _normalize(P, g):
     P.check_eq("translation_untouched", p[:3], np.array(t))
 
 
+def _fpwrap(via):
+    """IEEE binary64 model of the angle wrap"""
+
+    def fn(P, g):
+        import math
+
+        with P.fp_mode(g):
+            a = P.fp("a", lo=-1e6, hi=1e6)
+            if via == "function":
+                r = g.util.neg_pi_to_pi(a)
+            elif via == "constructor":
+                r = g.PoseSE2([P.fp("x", lo=-1e3, hi=1e3), P.fp("y", lo=-1e3, hi=1e3)], a)[2]
+            else:
+                p = g.PoseSE2([P.fp("x", lo=-1e3, hi=1e3), P.fp("y", lo=-1e3, hi=1e3)], a)
+                r = p.copy()[2]
+            P.check("fp_range_closed", P.both(r >= -math.pi, r <= math.pi))
+
+    return fn
+
+
 def cases(tier):
     v = 2 if tier == "quick" else 6
-    out = []
+    out = [Case("fpwrap-" + via, _fpwrap(via), timeout=120, old_timeout=120, validate=3, shadow=False) for via in ("function", "constructor", "copy")]
     for op in ["construct", "add", "sub", "inverse", "copy", "boxplus", "iadd"]:
         out.append(Case("se2-" + op, _se2(op), timeout=20, validate=v))
     for op in ["add", "sub", "inverse", "copy", "boxplus", "iadd"]:
